@@ -24,6 +24,7 @@ import (
 	"sort"
 	"strconv"
 	"strings"
+	"sync/atomic"
 	"time"
 
 	_ "github.com/apmckinlay/gsuneido/builtin"
@@ -178,6 +179,16 @@ func sink(seq int64, ev string, kv []any) {
 		pend = ev
 	case "State":
 		newS := kv[3].(*db19.DbState)
+		if pend == "" && loadPending.Load() {
+			// the state update of the table load itself (not a commit / merge / persist)
+			if ch := loadDone.Load(); ch != nil {
+				select {
+				case <-*ch:
+				default:
+					close(*ch)
+				}
+			}
+		}
 		if pend == "persist" {
 			t := db19.VerifStateTime(db.Store, pendOff)
 			if base == 0 {
@@ -246,6 +257,7 @@ func try(fn func()) (res string) {
 var nameSeq int
 var manyPersists bool
 var dumpMode bool
+var loadMode bool
 var asofMode bool
 
 func adminOp(r *rand.Rand) {
@@ -525,6 +537,128 @@ func liveDump(r *rand.Rand) {
 	tr.Emit(vh.E("LiveDump", "table", t.name, "res", res, "same", same))
 }
 
+// liveLoad (C16, C20): Database.Load(table) on the running database. The table is dumped,
+// changed again (committed changes that the load discards) and loaded back while a
+// background persist (variant 0) or merge (variant 1) that was computed on the old table is
+// parked; afterwards the table must be exactly the dumped one, in every index, and stay so.
+var (
+	loadPending atomic.Bool
+	loadParked  atomic.Int32
+	loadDone    atomic.Pointer[chan struct{}]
+)
+
+func gate(point string, kv []any) {
+	switch point {
+	case "persist.computed", "merge.begin", "merge.computed":
+		if loadPending.Load() {
+			if ch := loadDone.Load(); ch != nil {
+				loadParked.Add(1)
+				select {
+				case <-*ch:
+				case <-time.After(300 * time.Millisecond):
+				}
+			}
+		}
+	}
+}
+
+func tableRows(name string) []string {
+	rt := db.NewReadTran()
+	var rows []string
+	it := rt.IndexIter(name, 0)
+	sch := db19.VerifReadMeta(rt).GetRoSchema(name)
+	for it.Next(rt); !it.Eof(); it.Next(rt) {
+		rows = append(rows, liveRow(db19.OffToRec(db.Store, it.CurOff()), sch.Columns))
+	}
+	sort.Strings(rows)
+	return rows
+}
+
+func liveLoad(r *rand.Rand) {
+	ts := currentTables()
+	if len(ts) == 0 {
+		return
+	}
+	t := ts[r.Intn(len(ts))]
+	sc := db.GetState().Meta.GetRoSchema(t.name)
+	if sc == nil || sc.HasFkey() || sc.HasFkeyToHere() {
+		return // single tables with foreign keys (either direction) cannot be loaded
+	}
+	wd, _ := os.Getwd()
+	os.Chdir(dir)
+	defer os.Chdir(wd)
+	su := t.name + ".su"
+	defer func() {
+		os.Remove(su)
+		os.Remove(su + ".bak")
+	}()
+	want := tableRows(t.name)
+	if res := try(func() {
+		if _, err := tools.DumpDbTable(db, t.name, su, ""); err != nil {
+			panic(err)
+		}
+	}); res != "ok" {
+		tr.Emit(vh.E("LiveLoad", "table", t.name, "res", "dump: "+res, "same", 0, "variant", 0))
+		return
+	}
+	variant := r.Intn(2)
+	if os.Getenv("VERIF_LOAD_VARIANT") != "" {
+		variant, _ = strconv.Atoi(os.Getenv("VERIF_LOAD_VARIANT"))
+	}
+	// committed changes to the table that the load will replace
+	change := func() {
+		th := &core.Thread{}
+		ut := db.NewUpdateTran()
+		if ut == nil {
+			return
+		}
+		try(func() {
+			for i := 0; i < 1+r.Intn(3); i++ {
+				ut.Output(th, t.name, randRec(r, t, false))
+			}
+		})
+		if ut.Complete() == "" {
+			tr.Emit(vh.E("Committed"))
+		}
+	}
+	ch := make(chan struct{})
+	loadDone.Store(&ch)
+	loadParked.Store(0)
+	if variant == 0 {
+		// merged but not yet persisted changes; wait for the ticker's persist to be parked
+		change()
+		time.Sleep(3 * time.Millisecond)
+		loadPending.Store(true)
+		for i := 0; i < 60 && loadParked.Load() == 0; i++ {
+			time.Sleep(time.Millisecond)
+		}
+	} else {
+		// a commit whose merge is still pending when the load takes the table
+		loadPending.Store(true)
+		change()
+	}
+	parked := int(loadParked.Load())
+	res := try(func() {
+		if _, err := tools.LoadDbTable(t.name, su, "", "", db); err != nil {
+			panic(err)
+		}
+	})
+	loadPending.Store(false)
+	select {
+	case <-ch:
+	default:
+		close(ch)
+	}
+	time.Sleep(2 * time.Millisecond) // let the released merge / persist apply
+	same := 0
+	got := tableRows(t.name)
+	_, agree := logicalDigest(db)
+	if res == "ok" && agree == 1 && strings.Join(got, "\x00\x01") == strings.Join(want, "\x00\x01") {
+		same = 1
+	}
+	tr.Emit(vh.E("LiveLoad", "table", t.name, "res", res, "same", same, "variant", variant, "parked", parked))
+}
+
 func liveRow(rec core.Record, cols []string) string {
 	var sb strings.Builder
 	for ci, col := range cols {
@@ -623,6 +757,10 @@ func history(r *rand.Rand, steps int) {
 			buildThenChange(r)
 			continue
 		}
+		if loadMode && r.Intn(14) == 0 {
+			liveLoad(r)
+			continue
+		}
 		switch n := r.Intn(20); {
 		case n < 4:
 			adminOp(r)
@@ -650,10 +788,12 @@ func scenario(r *rand.Rand, sn int, mode string, ntrials int, tot map[string]int
 		vh.Fatal("create: %v", err)
 	}
 	vh.SetSink(sink)
+	vh.SetGate(gate)
 	db19.StartConcur(db, time.Duration(4+r.Intn(20))*time.Millisecond)
 	tr.Emit(vh.E("Created", "statelen", db19.VerifStateLen, "tail", db19.VerifTailSize))
 	manyPersists = mode == "crash" || mode == "asof"
 	dumpMode = mode == "dump" || mode == "all"
+	loadMode = mode == "dump" || mode == "all" || mode == "reopen"
 	asofMode = mode == "asof" || mode == "all"
 	pendingAsof = nil
 	rounds := 1 + r.Intn(3)
@@ -715,6 +855,7 @@ func scenario(r *rand.Rand, sn int, mode string, ntrials int, tot map[string]int
 	}
 	db.Close()
 	vh.SetSink(nil)
+	vh.SetGate(nil)
 	if mode == "dump" || mode == "all" {
 		dumpPhase(r, path, tot)
 	}
